@@ -251,7 +251,7 @@ def check(run):
                 "orig_source, original items), its output. Non-trivial = >= 4 steps.")
     run.assumptions = ["asyncio.wait_for timing on the virtual clock: a timeout is due exactly "
                        "interval after the wait started (partial: the loop is not modelled)"]
-    cases = [gen_case(run.rng) for _ in range(500 if run.tier == 'quick' else 6000)]
+    cases = [gen_case(run.rng) for _ in range(500 if run.tier == 'quick' else 24000)]
     for c in cases:
         run.count('count=%s' % c['count'])
         run.count('implicit' if c['implicit'] else ('chain' if c['chain'] else 'explicit'))
